@@ -59,10 +59,13 @@ Norm(e)   == [e EXCEPT !.meta = PairSet(@), !.orig = Range(@), !.ua = Range(@)]
 NormPs(S) == {Norm(e) : e \in S}
 SamePs(a, b) == NormPs(a) = NormPs(b)
 
-\* environment: [follower, dmin, dmax, strat, ms, paths, blocks]
+\* environment: [follower, dmin, dmax, strat, ms, paths, blocks, fail]
 Resolve(env, path) == LET I == {i \in DOMAIN env.paths : env.paths[i][1] = path}
                       IN IF I = {} THEN NoCid ELSE env.paths[CHOOSE i \in I : TRUE][2]
-HasBlock(env, d)   == \E i \in DOMAIN env.blocks : env.blocks[i][1] = d
+\* env.blocks is the truth about the cluster-DAG (cdag -> shard links); env.fail lists the CIDs whose
+\* IPFSConnector.BlockGet fails at the moment (the transcription can only use what BlockGet returns,
+\* the property is stated over the truth)
+HasBlock(env, d)   == (\E i \in DOMAIN env.blocks : env.blocks[i][1] = d) /\ d \notin Range(env.fail)
 Links(env, d)      == LET I == {i \in DOMAIN env.blocks : env.blocks[i][1] = d}
                       IN IF I = {} THEN <<>> ELSE env.blocks[CHOOSE i \in I : TRUE][2]
 
@@ -160,6 +163,9 @@ UnpinDecide(env, ps, c) ==
         [] e.type = "meta" ->
              IF e.ref = NoCid THEN Refuse
              ELSE IF ~Has(ps, e.ref) THEN Refuse
+             \* BlockGet of the cluster-DAG block fails: cidsFromMetaPin returns an error and unpinClusterDag gives
+             \* up BEFORE the first LogUnpin, so a failed Unpin leaves the pinset as it was. Only the cluster-DAG
+             \* block is read (its links are the shards); shard blocks are never fetched.
              ELSE IF ~HasBlock(env, e.ref) THEN Refuse
              ELSE LET ls == Links(env, e.ref) IN
                   \* shards (reverse link order), clusterDAG, the meta pin (by unpinClusterDag) and the meta pin again (by Unpin)
